@@ -209,9 +209,16 @@ class Models(object):
             if i is not None:
                 return self.emap_set(m, i, tm.TRUE, v)
             out = m
-            for (i, kc, p, old) in self.emap_entries(m):
-                c = tm.eq(k, kc)
-                out = self.emap_set(out, i, tm.or_(c, p), tm.ite(c, v, old))
+            ents = self.emap_entries(m)
+            conds = [tm.eq(k, kc) for (_i, kc, _p, _o) in ents]
+            for j, (i, kc, p, old) in enumerate(ents):
+                c = conds[j]
+                # the value stored in entry i is the new value where the key IS that entry's key: specialise it
+                # (a value computed from `map[k]` - an ite chain over all entries - collapses to that entry)
+                sub = dict((cj, tm.TRUE if jj == j else tm.FALSE) for jj, cj in enumerate(conds)
+                           if cj is not tm.TRUE and cj is not tm.FALSE)
+                vi = tm.subst(v, sub) if sub else v
+                out = self.emap_set(out, i, tm.or_(c, p), tm.ite(c, vi, old))
             return out
         if m.op == "ite" and m.a[1].op == "emap" and m.a[2].op == "emap":
             return tm.ite(m.a[0], self.map_insert(ev, m.a[1], k, v), self.map_insert(ev, m.a[2], k, v))
@@ -715,6 +722,16 @@ class Models(object):
             state_for[c] = folds.structured_state(pre.cells[c], leaves)
         elem, ecell, post, live, ctx, nret0 = one_pass(state_for, True)
         cl = folds.Classifier(uid, src, elem, leaves)
+
+        def _equiv(a, b):
+            ev._budget = 20000
+            saved = ev.pc
+            ev.pc = []
+            try:
+                return ev.sat([a, tm.not_(b)], {}) is False and ev.sat([tm.not_(a), b], {}) is False
+            finally:
+                ev.pc = saved
+        cl.equiv = _equiv
         finals = {}
         for c in cells:
             nxt = post.cells[c] if live else state_for[c]
